@@ -267,6 +267,7 @@ def generate(plan) -> None:
         # found at a drawn level (a write that finds < 1 token is dropped by design: C07/C09 still apply, C08's counts do not)
         k["limits"] = rt.random() < 0.3
         k["mqtt_tokens"] = rt.choice([160, 160, 40, 8, 2, 0.5])
+        k["mqtt_retained_offline"] = rt.random() < 0.3
     # which layer the callers use: the protocol's send_cmd (as the library's own layers do), the Engine's async_send_cmd, or the
     # Gateway's send_cmd wrapper that returns a Task (no max_retries parameter there: the default of 3 applies)
     if sc in ("send", "episode", "burst") and k.get("tr") != "mqtt":
@@ -619,6 +620,9 @@ class QosSim:
             cl = FakeMqttClient.instances[-1]
             self.ser.attach(cl)
             cl.on_connect(cl, None, {}, 0)
+            if k("mqtt_retained_offline", False):  # the gateway was off when we subscribed: its retained status says so, until it boots
+                self.ser.status(b"offline")
+                self.hub.count("mqtt_retained_offline_at_start")
             self.ser.status(b"online")
             if k("limits", False):
                 self.tr._num_tokens = float(k("mqtt_tokens", 160))
